@@ -23,7 +23,7 @@ import subprocess
 import sys
 import threading
 
-from harness import parallel, randwb, tlc, workbooks as W, xl
+from harness import parallel, plugin_c03 as PLUG, randwb, tlc, workbooks as W, xl
 from harness.evidence import Verdict
 
 PID = 'C03'
@@ -38,6 +38,15 @@ POOL = [1e-7, 1e22, -0.0, 0.1 + 0.2, 2 ** 53 + 1, 1e300, 123456789012345678, -3,
         'ls\u2028ps\u2029', '\ufeffbom', 'esc\x1b[0m', 'nul\x00byte', 'crlf\r\nline', 'lone\rcr']
 
 
+# the function environment of a model compiled with a plugin module: the same
+# module is named when the model is compiled and when it is loaded
+PLUGINS = (PLUG.MODULE,)
+
+
+def plugins_of(plug):
+    return PLUGINS if plug else None
+
+
 def same(a, b):
     if isinstance(a, float) and isinstance(b, float) and math.isnan(a) and math.isnan(b):
         return True
@@ -48,10 +57,11 @@ def same(a, b):
 
 # ---------------------------------------------------------------- part A
 def protocol_job(arg):
-    text_ext, cycles, seed, max_leaves = arg
+    text_ext, cycles, seed, max_leaves, plug = arg
     from pycel import ExcelCompiler
-    out = dict(part='protocol', ext=text_ext, cycles=bool(cycles), tlc=[], violations=[],
-               known=[], notes=[], cases=0, histories=0, loads=0, stale_seen=0, sample=None)
+    out = dict(part='protocol/plugin' if plug else 'protocol', ext=text_ext, cycles=bool(cycles),
+               tlc=[], violations=[], known=[], notes=[], cases=0, histories=0, loads=0,
+               stale_seen=0, sample=None)
     preds = {}
     for dev in ('TRUE', 'FALSE'):
         d = tlc.new_scratch('pers')
@@ -85,9 +95,12 @@ def protocol_job(arg):
     leaves = leaves[:max_leaves]
     workdir = tlc.new_scratch('files')
     cells = {'A1': 1, 'B1': '=A1+1', 'C1': '=SUM(A1:B1)', 'D1': '=C1&"x"'}
+    if plug:
+        # B1, a member of the range A1:B1, and D1 need the plugin module
+        cells.update(B1=PLUG.wrap(cells['B1']), D1=PLUG.wrap(cells['D1']))
     for hi, hist in enumerate(leaves):
         base = os.path.join(workdir, f'h{hi}_model')
-        m = xl.compile_wb(cells, cycles=cycles)
+        m = xl.compile_wb(cells, cycles=cycles, plugins=plugins_of(plug))
         for c in 'BCD':
             m.evaluate(f'S!{c}1')
         done = []
@@ -95,7 +108,8 @@ def protocol_job(arg):
         for step in hist:
             done.append(step)
             pred = preds[json.dumps(done, sort_keys=True)]
-            case = dict(text_ext=text_ext, cycles=bool(cycles), cells=cells, history=list(done))
+            case = dict(text_ext=text_ext, cycles=bool(cycles), cells=cells, history=list(done),
+                        plugins=plugins_of(plug))
             out['cases'] += 1
             try:
                 if step['op'] == 'set_value':
@@ -124,7 +138,7 @@ def protocol_job(arg):
                                                 f'Persist.tla after {done}')
                 elif step['op'] == 'from_file':
                     name = {'txt': base + '.' + text_ext, 'pkl': base + '.pkl', 'auto': base}[step['ext']]
-                    loaded = ExcelCompiler.from_file(name)
+                    loaded = ExcelCompiler.from_file(name, plugins=plugins_of(plug))
                     out['loads'] += 1
                     got = loaded.evaluate('S!A1')
                     deps = [loaded.evaluate(f'S!{c}1') for c in 'BCD']
@@ -184,18 +198,25 @@ def protocol_job(arg):
 
 # ---------------------------------------------------------------- part B
 def fidelity_job(arg):
-    ft, cycles, seed = arg
+    ft, cycles, seed, plug = arg
     from pycel import ExcelCompiler
-    out = dict(part='fidelity', ext=ft, cycles=bool(cycles), tlc=[], violations=[], known=[],
-               notes=[], cases=0, sample=None)
+    out = dict(part='fidelity/plugin' if plug else 'fidelity', ext=ft, cycles=bool(cycles), tlc=[],
+               violations=[], known=[], notes=[], cases=0, sample=None)
     workdir = tlc.new_scratch('fid')
     cells = {'A1': 5, 'A2': 'k', 'B1': '=A1&"|"', 'C1': '=A1', 'D1': '=IF(ISNUMBER(A1),A1*2,"t")',
              'E1': '=LEN(A2&A1)', 'F1': '=SUM(A1:A2)'}
+    addrs = [f'S!{c}' for c in ('A1', 'B1', 'C1', 'D1', 'E1', 'F1', 'A1:A2')]
+    if plug:
+        # every formula needs the plugin module; G1 reads them through a range
+        cells = {a: PLUG.wrap(c) if isinstance(c, str) and c.startswith('=') else c
+                 for a, c in cells.items()}
+        cells['G1'] = '=COUNT(B1:F1)&"/"&SUM(C1:D1)'
+        addrs += ['S!G1', 'S!B1:F1']
     for i, val in enumerate(POOL):
         out['cases'] += 1
-        m = xl.compile_wb(cells, cycles=cycles)
-        addrs = [f'S!{c}' for c in ('A1', 'B1', 'C1', 'D1', 'E1', 'F1', 'A1:A2')]
-        case = dict(file_type=ft, cycles=bool(cycles), value=repr(val), cells=cells)
+        m = xl.compile_wb(cells, cycles=cycles, plugins=plugins_of(plug))
+        case = dict(file_type=ft, cycles=bool(cycles), value=repr(val), cells=cells,
+                    plugins=plugins_of(plug))
         try:
             for a in addrs:
                 m.evaluate(a)
@@ -208,7 +229,7 @@ def fidelity_job(arg):
                     want.append(('exc', type(exc).__name__))
             base = os.path.join(workdir, f'v{i}_model')
             m.to_file(base, file_types=(ft,))
-            loaded = ExcelCompiler.from_file(base + '.' + ft)
+            loaded = ExcelCompiler.from_file(base + '.' + ft, plugins=plugins_of(plug))
             got = []
             for a in addrs:
                 try:
@@ -241,8 +262,113 @@ def fidelity_job(arg):
             else:
                 out['violations'].append((
                     f'value {val!r} saved to {ft}: loaded model differs {bad[:2]}', case))
+        if len(out['violations']) > 5:
+            break
+    out['violations'] = out['violations'][:5]
     out['sample'] = dict(pool_size=len(POOL), first_values=[repr(x) for x in POOL[:8]])
     out['known'] = out['known'][:6]
+    return out
+
+
+# ---------------------------------------------------------------- part B2
+# Texts of every length up to a few hundred characters -- shorter and longer
+# than any line a text file writer may want to fill -- as constants and inside
+# the text literals of formulas.  One model holds them all: one save, one load.
+ALPHABETS = ['a ', 'ab  \t', 'a  \'"', 'a :#-,', 'a \n', 'a  \x1b\x7f', 'a  éü日', 'a []{}&*!|>%@`?',
+             'a =+()<>\\', 'a0 .e-', 'a   ']
+ILLEGAL_IN_XLSX = set(map(chr, list(range(0, 9)) + [11, 12] + list(range(14, 32))))
+LITERAL_MAX = 255          # Excel: a text literal in a formula has at most 255 characters
+
+
+def text_family(rnd, sweep_lengths, n_random):
+    """a run of 1..3 spaces at every offset of a text of L characters (leading and
+    trailing runs included), and random texts over small alphabets"""
+    out = []
+    for length in sweep_lengths:
+        for k in (1, 2, 3):
+            for o in range(0, length - k + 1):
+                out.append('x' * o + ' ' * k + 'y' * (length - o - k))
+    for i in range(n_random):
+        alpha = ALPHABETS[i % len(ALPHABETS)]
+        t = ''.join(rnd.choice(alpha) for _ in range(rnd.randint(1, 400)))
+        if t.startswith('='):
+            t = 'a' + t[1:]       # a text starting with '=' is D10, judged on the pool
+        out.append(t)
+    return out
+
+
+def literal(t):
+    return '"' + t.replace('"', '""') + '"'
+
+
+def texts_job(arg):
+    ft, cycles, seed, idx, n_random = arg
+    from pycel import ExcelCompiler
+    rnd = random.Random(seed * 104729 + idx)
+    out = dict(part='texts', ext=ft, cycles=bool(cycles), tlc=[], violations=[], known=[],
+               notes=[], cases=0, sample=None)
+    lengths = (70, 130, 260) if idx == 0 else tuple(rnd.randint(30, 400) for _ in range(3))
+    texts = text_family(rnd, lengths, n_random)
+    # column A: the text as a constant (written with set_value); column B: a
+    # formula whose text literal it is, for every third text Excel allows there
+    cells, items = {}, []
+    for i, t in enumerate(texts, 1):
+        cells[f'A{i}'] = 'k'
+        items.append((f'S!A{i}', 'constant', t))
+        if i % 3 == 0 and len(t) <= LITERAL_MAX and not (ILLEGAL_IN_XLSX & set(t)):
+            cells[f'B{i}'] = ('=' if i % 2 else '=LEN(') + literal(t) + ('' if i % 2 else ')')
+            items.append((f'S!B{i}', 'literal', t))
+    base = os.path.join(tlc.new_scratch('txt'), f't{idx}_model')
+    head = dict(file_type=ft, cycles=bool(cycles), sweep_lengths=list(lengths))
+    try:
+        m = xl.compile_wb(cells, cycles=cycles)
+        for a, how, t in items:
+            m.evaluate(a)
+            if how == 'constant':
+                m.set_value(a, t)
+        want = [m.evaluate(a) for a, _, _ in items]
+        for (a, how, t), w in zip(items, want):
+            if w != (t if how == 'constant' or cells[a[2:]][1] == '"' else len(t)):
+                raise tlc.MachineryFailure(f'texts: the original model has {w!r} in {a} ({t!r})')
+        m.to_file(base, file_types=(ft,))
+        if ft != 'pkl':
+            first = open(base + '.' + ft, 'rb').read()
+            m.to_file(base, file_types=(ft,))
+            if open(base + '.' + ft, 'rb').read() != first:
+                out['violations'].append((f're-saving the unchanged model changed the {ft} file',
+                                          dict(head, texts=len(texts))))
+        loaded = ExcelCompiler.from_file(base + '.' + ft)
+        got = [loaded.evaluate(a) for a, _, _ in items]
+        if ft != 'pkl':
+            # saving the loaded model reproduces the content
+            loaded.to_file(base + '_again', file_types=(ft,))
+            again = ExcelCompiler.from_file(base + '_again.' + ft)
+            if [again.evaluate(a) for a, _, _ in items] != got or \
+                    sorted(again.cell_map) != sorted(loaded.cell_map):
+                out['violations'].append((f'save(load(file)) has other cells than the {ft} file',
+                                          dict(head, texts=len(texts))))
+    except tlc.MachineryFailure:
+        raise
+    except Exception as exc:              # noqa
+        out['violations'].append((f'model with {len(texts)} text cells, {ft}: '
+                                  f'{type(exc).__name__}: {str(exc)[-200:]}', head))
+        return out
+    out['cases'] = len(items)
+    bad = sorted(((a, how, t, w, g) for (a, how, t), w, g in zip(items, want, got)
+                  if not (type(w) is type(g) and w == g)), key=lambda b: (b[1], len(set(b[2])), len(b[2])))
+    for how in ('constant', 'literal'):
+        of_kind = [b for b in bad if b[1] == how]
+        if of_kind:
+            a, _, t, w, g = of_kind[0]            # the shortest text
+            out['violations'].append((
+                f'{len(of_kind)} of {sum(1 for it in items if it[1] == how)} texts '
+                f'({"constants" if how == "constant" else "text literals of formulas"}) differ '
+                f'after {ft} reload; shortest: {t!r} -> original {w!r}, loaded {g!r}',
+                dict(head, text=t, where=how, cells={'A1': 'k'} if how == 'constant' else
+                     {'B1': cells[a[2:]]}, history=[dict(op='set_value', n='A1', v=t)]
+                     if how == 'constant' else [dict(op='evaluate', n='B1')])))
+    out['sample'] = dict(texts=len(texts), literals=sum(1 for it in items if it[1] == 'literal'),
+                         sweep_lengths=list(lengths), first=repr(texts[0])[:60])
     return out
 
 
@@ -252,7 +378,7 @@ import sys, json
 sys.path.insert(0, %r); sys.path.insert(0, %r)
 from pycel import ExcelCompiler
 from harness import workbooks as W
-m = ExcelCompiler.from_file(sys.argv[1])
+m = ExcelCompiler.from_file(sys.argv[1], plugins=json.loads(sys.argv[3]))
 out = []
 for act in json.loads(sys.argv[2]):
     try:
@@ -268,19 +394,24 @@ print(json.dumps(out))
 
 
 def lockstep_job(arg):
-    idx, ft, cycles, where, n_hist, length, seed = arg
+    idx, ft, cycles, where, n_hist, length, seed, plug = arg
     from pycel import ExcelCompiler
     rnd = random.Random(seed * 7919 + idx)
     wb = randwb.random_workbook(rnd, nrows=rnd.choice([2, 3]), ncols=rnd.choice([3, 4]))
+    if plug:
+        # the same workbook with some of its formulas (members of ranges, readers of
+        # ranges, plain ones) going through a function of the plugin module
+        wb['texts'] = {f: PLUG.wrap(W.formula_text(wb, f)) for f in sorted(wb['formulas'])
+                       if rnd.random() < 0.6}
     cells, arrays = W.cells(wb)
     nodes = randwb.all_nodes(wb)
     n = W.nodes(wb)
-    out = dict(part=f'lockstep/{where}', ext=ft, cycles=bool(cycles), tlc=[], violations=[],
-               known=[], notes=[], cases=0, sample=dict(random_workbook=cells, arrays=arrays,
-                                                         where=where, file_type=ft))
+    out = dict(part=f'lockstep/{where}' + ('/plugin' if plug else ''), ext=ft, cycles=bool(cycles),
+               tlc=[], violations=[], known=[], notes=[], cases=0,
+               sample=dict(random_workbook=cells, arrays=arrays, where=where, file_type=ft))
     workdir = tlc.new_scratch('ls')
     for h in range(n_hist):
-        m = xl.compile_wb(cells, arrays=arrays, cycles=cycles)
+        m = xl.compile_wb(cells, arrays=arrays, cycles=cycles, plugins=plugins_of(plug))
         for node in nodes:
             m.evaluate(W.addr(node))
         # a prefix history before the save
@@ -288,7 +419,17 @@ def lockstep_job(arg):
             a = rnd.choice(n['inputs'])
             m.set_value(W.addr(a), rnd.choice(W.POOL_FULL))
         base = os.path.join(workdir, f'w{idx}_{h}_model')
-        m.to_file(base, file_types=(ft,))
+        case = dict(cells=cells, arrays=arrays, file_type=ft, cycles=bool(cycles), where=where,
+                    plugins=plugins_of(plug), history=[])
+        try:
+            m.to_file(base, file_types=(ft,))
+        except Exception as exc:              # noqa
+            out['cases'] += 1
+            out['violations'].append((f'to_file({ft}) raised {type(exc).__name__}: '
+                                      f'{str(exc)[-160:]}', case))
+            if len(out['violations']) > 4:
+                break
+            continue
         hist = []
         for _ in range(length):
             if rnd.random() < 0.4:
@@ -306,13 +447,13 @@ def lockstep_job(arg):
                     want.append(['ok', None])
             except Exception as exc:          # noqa
                 want.append(['exc', type(exc).__name__ + ': ' + str(exc)[-120:]])
-        case = dict(cells=cells, arrays=arrays, file_type=ft, cycles=bool(cycles), where=where,
-                    history=hist)
+        case = dict(case, history=hist)
         out['cases'] += 1
         if where == 'process':
             p = subprocess.run([sys.executable, '-c', CHILD % (
                 os.environ.get('VERIF_REPO_SRC', '/repo/src'), tlc.VERIF),
-                base + '.' + ft, json.dumps(hist)], capture_output=True, text=True,
+                base + '.' + ft, json.dumps(hist), json.dumps(plugins_of(plug))],
+                capture_output=True, text=True,
                 env=dict(os.environ, PYTHONHASHSEED='0'), timeout=120)
             if p.returncode != 0:
                 out['violations'].append((
@@ -325,7 +466,7 @@ def lockstep_job(arg):
 
             def body():
                 try:
-                    lm = ExcelCompiler.from_file(base + '.' + ft)
+                    lm = ExcelCompiler.from_file(base + '.' + ft, plugins=plugins_of(plug))
                     res = []
                     for act in hist:
                         try:
@@ -357,31 +498,35 @@ def lockstep_job(arg):
                 break
         # save -> load -> save reproduces the content; re-save is byte identical
         if ft != 'pkl' and h == 0:
-            m2 = xl.compile_wb(cells, arrays=arrays, cycles=cycles)
-            for node in nodes:
-                m2.evaluate(W.addr(node))
-            b2 = os.path.join(workdir, f'w{idx}_resave_model')
-            m2.extra_data = {'who': 'me'}
-            m2.to_file(b2, file_types=(ft,))
-            t1 = open(b2 + '.' + ft, 'rb').read()
-            m2.to_file(b2, file_types=(ft,))
-            if open(b2 + '.' + ft, 'rb').read() != t1:
-                out['violations'].append((f're-saving the unchanged model changed the {ft} file', case))
-            l2 = ExcelCompiler.from_file(b2 + '.' + ft)
-            b3 = os.path.join(workdir, f'w{idx}_resave2_model')
-            l2.to_file(b3, file_types=(ft,))
-            from ruamel.yaml import YAML
-            d1, d3 = YAML().load(t1.decode()), YAML().load(open(b3 + '.' + ft).read())
-            for key in ('cell_map', 'cycles', 'excel_hash', 'filename', 'who'):
-                if json.dumps(d1.get(key), default=str) != json.dumps(d3.get(key), default=str):
+            try:
+                m2 = xl.compile_wb(cells, arrays=arrays, cycles=cycles, plugins=plugins_of(plug))
+                for node in nodes:
+                    m2.evaluate(W.addr(node))
+                b2 = os.path.join(workdir, f'w{idx}_resave_model')
+                m2.extra_data = {'who': 'me'}
+                m2.to_file(b2, file_types=(ft,))
+                t1 = open(b2 + '.' + ft, 'rb').read()
+                m2.to_file(b2, file_types=(ft,))
+                if open(b2 + '.' + ft, 'rb').read() != t1:
+                    out['violations'].append((f're-saving the unchanged model changed the {ft} file', case))
+                l2 = ExcelCompiler.from_file(b2 + '.' + ft, plugins=plugins_of(plug))
+                b3 = os.path.join(workdir, f'w{idx}_resave2_model')
+                l2.to_file(b3, file_types=(ft,))
+                from ruamel.yaml import YAML
+                d1, d3 = YAML().load(t1.decode()), YAML().load(open(b3 + '.' + ft).read())
+                for key in ('cell_map', 'cycles', 'excel_hash', 'filename', 'who'):
+                    if json.dumps(d1.get(key), default=str) != json.dumps(d3.get(key), default=str):
+                        out['violations'].append((
+                            f'save(load(file)) differs in {key}: {str(d1.get(key))[:120]} vs '
+                            f'{str(d3.get(key))[:120]} ({ft})', case))
+                if l2.extra_data.get('who') != 'me' or bool(l2.cycles) != bool(cycles) or \
+                        l2.filename != m2.filename:
                     out['violations'].append((
-                        f'save(load(file)) differs in {key}: {str(d1.get(key))[:120]} vs '
-                        f'{str(d3.get(key))[:120]} ({ft})', case))
-            if l2.extra_data.get('who') != 'me' or bool(l2.cycles) != bool(cycles) or \
-                    l2.filename != m2.filename:
-                out['violations'].append((
-                    f'metadata did not survive {ft}: extra_data={dict(l2.extra_data)!r} '
-                    f'cycles={l2.cycles!r} filename={l2.filename!r}', case))
+                        f'metadata did not survive {ft}: extra_data={dict(l2.extra_data)!r} '
+                        f'cycles={l2.cycles!r} filename={l2.filename!r}', case))
+            except Exception as exc:          # noqa
+                out['violations'].append((f'save, load and save again ({ft}) raised '
+                                          f'{type(exc).__name__}: {str(exc)[-160:]}', case))
         if len(out['violations']) > 4:
             break
     out['violations'] = out['violations'][:4]
@@ -434,16 +579,23 @@ def reload_job(arg):
     """Reload.tla: to_file + from_file at any point of a history (tour)"""
     from harness import engine
     from pycel import ExcelCompiler
-    name, src, ft, seed = arg
+    name, src, ft, seed, plug = arg
     rnd = random.Random(seed)
     wb = W.WORKBOOKS[name]
     oracle = engine.Oracle(wb)
+    # with plug the real workbook has every formula wrapped in a function of the
+    # plugin module, VID(x) = x: the same engine model, the same oracle
+    real_wb = dict(wb, texts={f: PLUG.wrap(W.formula_text(wb, f)) for f in wb['formulas']}) \
+        if plug else wb
+    if plug and src != 'NoData':
+        raise tlc.MachineryFailure('reload with a plugin module: source NoData only')
     g = engine.gen_reload_graph(name, wb, [2], src, settable=sorted(wb['inputs'])[:1])
     reloads = sum(1 for es in g.out.values() for e in es if e[0]['op'] == 'reload')
     if not reloads:
         raise tlc.MachineryFailure('vacuous: no Reload transition')
-    out = dict(part='reload', ext=ft, cycles=False, violations=[], known=[], notes=[], cases=0,
-               tlc=[dict(run=f'Reload {name}/{src}', distinct=g.tlc.distinct,
+    out = dict(part='reload/plugin' if plug else 'reload', ext=ft, cycles=False, violations=[],
+               known=[], notes=[], cases=0,
+               tlc=[dict(run=f'Reload {name}/{src}' + ('/plugin' if plug else ''), distinct=g.tlc.distinct,
                          generated=g.tlc.generated, depth=g.tlc.depth,
                          wall_s=round(g.tlc.wall, 2))],
                sample=dict(workbook=name, source=src, file_type=ft, reload_edges=reloads))
@@ -452,13 +604,21 @@ def reload_job(arg):
     counter = [0]
 
     class M(engine.RealModel):
+        def __init__(self, wb_, src_, workdir_):
+            if plug:
+                self.wb, self.src = wb_, src_
+                cells, arrays = W.cells(real_wb)
+                self.m = xl.compile_wb(cells, arrays=arrays, plugins=PLUGINS)
+            else:
+                super().__init__(wb_, src_, workdir_)
+
         def do(self, act, variant='str'):
             if act['op'] == 'reload':
                 try:
                     counter[0] += 1
                     base = os.path.join(workdir, f'r{counter[0]}_model')
                     self.m.to_file(base, file_types=(ft,))
-                    self.m = ExcelCompiler.from_file(base + '.' + ft)
+                    self.m = ExcelCompiler.from_file(base + '.' + ft, plugins=plugins_of(plug))
                     return 'ok', None
                 except Exception as exc:      # noqa
                     return 'exc', f'{type(exc).__name__}: {exc}'
@@ -467,8 +627,8 @@ def reload_job(arg):
     def on_step(model, s_, act, spec_ret, t, hist):
         out['cases'] += 1
         status, got = model.do(act)
-        case = dict(workbook=name, source=src, file_type=ft, cells=W.cells(wb)[0],
-                    history=list(hist))
+        case = dict(workbook=name, source=src, file_type=ft, cells=W.cells(real_wb)[0],
+                    plugins=plugins_of(plug), history=list(hist))
         if status == 'exc':
             out['violations'].append((f'{act} raised {got} [{name}/{src}/{ft}]', case))
             return
@@ -496,27 +656,38 @@ def reload_job(arg):
 
 def any_job(arg):
     kind, a = arg
-    return dict(protocol=protocol_job, fidelity=fidelity_job, lockstep=lockstep_job,
-                hash=hash_job, reload=reload_job)[kind](a)
+    return dict(protocol=protocol_job, fidelity=fidelity_job, texts=texts_job,
+                lockstep=lockstep_job, hash=hash_job, reload=reload_job)[kind](a)
 
 
 def run(tier, seed):
     v = Verdict(PID, tier, seed)
     cy = dict(iterations=50, tolerance=0.001)
     ml = 1500 if tier == 'quick' else 10 ** 9
-    jobs = [('protocol', ('yml', None, seed, ml)), ('protocol', ('json', cy, seed, ml))]
+    jobs = [('protocol', ('yml', None, seed, ml, False)), ('protocol', ('json', cy, seed, ml, False)),
+            ('protocol', ('yml', None, seed, ml // 3, True))]
     for ft in ('yml', 'json', 'pkl'):
-        jobs.append(('fidelity', (ft, None, seed)))
-    jobs.append(('fidelity', ('yml', cy, seed)))
+        jobs.append(('fidelity', (ft, None, seed, False)))
+    jobs.append(('fidelity', ('yml', cy, seed, False)))
+    jobs.append(('fidelity', ('pkl', None, seed, True)))
+    jobs.append(('fidelity', ('json', cy, seed, True)))
+    # long texts: the sweep and 300 random texts per file type; thorough: more models
+    for i in range(1 if tier == 'quick' else 4):
+        for ft in ('yml', 'json', 'pkl'):
+            jobs.append(('texts', (ft, cy if (ft == 'yml' and i % 2) else None, seed, i,
+                                   300 if tier == 'quick' else 1500)))
     for ft in ('yml', 'json', 'pkl'):
         jobs.append(('hash', (ft, seed)))
-    rl = [('nested', 'NoData', 'yml'), ('alias', 'Stored', 'pkl'), ('cse', 'NoData', 'json')]
+    rl = [('nested', 'NoData', 'yml', False), ('alias', 'Stored', 'pkl', False),
+          ('cse', 'NoData', 'json', False), ('nested', 'NoData', 'pkl', True)]
     if tier != 'quick':
-        rl += [(n, s_, f) for n in ('chain', 'range', 'grid', 'trimex', 'twosheet')
+        rl += [(n, s_, f, False) for n in ('chain', 'range', 'grid', 'trimex', 'twosheet')
                for s_, f in (('NoData', 'yml'), ('NoData', 'pkl'), ('Stored', 'json'))
                if not (n == 'twosheet' and s_ == 'Stored')]
-    for n, s_, f in rl:
-        jobs.append(('reload', (n, s_, f, seed)))
+        rl += [('alias', 'NoData', 'yml', True), ('cse', 'NoData', 'json', True),
+               ('grid', 'NoData', 'yml', True), ('range', 'NoData', 'json', True)]
+    for n, s_, f, plug in rl:
+        jobs.append(('reload', (n, s_, f, seed, plug)))
     k = 0
     reps = 1 if tier == 'quick' else 6
     for rep in range(reps):
@@ -525,7 +696,9 @@ def run(tier, seed):
                 for where in ('same', 'thread', 'process'):
                     nh = (2 if where == 'process' else 6) if tier == 'quick' else \
                         (6 if where == 'process' else 30)
-                    jobs.append(('lockstep', (k, ft, cycles, where, nh, 15, seed)))
+                    # every other job: a workbook that needs a plugin module
+                    jobs.append(('lockstep', (k, ft, cycles, where, nh, 15, seed,
+                                              (k + rep) % 2 == 1)))
                     k += 1
     results = parallel.run_jobs(any_job, jobs)
     parts = {}
@@ -538,7 +711,7 @@ def run(tier, seed):
         key = (r['part'], r['ext'], r['cycles'])
         v.distinct.update((key, i) for i in range(r['cases']))
         parts[str(key)] = parts.get(str(key), 0) + r['cases']
-        if r['part'] in ('protocol', 'reload'):
+        if r['part'].split('/')[0] in ('protocol', 'reload'):
             v.traces += r['histories']
             v.extra['protocol_loads'] = v.extra.get('protocol_loads', 0) + r.get('loads', 0)
             v.extra['stale_pickle_reads_seen'] = v.extra.get('stale_pickle_reads_seen', 0) + r.get('stale_seen', 0)
@@ -559,8 +732,12 @@ def run(tier, seed):
         v.note('known finding D9 (stale pickle) was not observed in this run')
     v.extra.update(cases_by_part=parts, exhaustive=False,
                    rule='protocol: every maximal history (depth <= 5) of Persist.tla on real '
-                        'files; fidelity: one case per pool value and file type; lockstep: one '
-                        'case per random post-load history on a random workbook')
+                        'files; fidelity: one case per pool value and file type; texts: one case '
+                        'per text constant / text literal of the sweep (a run of 1..3 spaces at '
+                        'every offset of texts of three lengths) and of the random texts (1..400 '
+                        'characters); lockstep: one case per random post-load history on a random '
+                        'workbook; */plugin: the model is compiled and loaded with a plugin '
+                        'module its formulas call (below and above ranges)')
     v.assumptions = ['formula code is static: the content of a saved model is abstracted to its '
                      'input constants and metadata in Persist.tla',
                      'byte-level yaml/json encoding is exercised by the value pool, not modelled']
